@@ -28,6 +28,8 @@ pub struct Bias {
     pub key_types: Vec<&'static str>,
     /// weight of big pool contents (>= 4096 bytes) relative to small ones (out of 10)
     pub big: u32,
+    /// weight of the 300 001-byte pool content (larger than any plausible internal buffer or threshold)
+    pub huge: u32,
     /// number of distinct keys used (prefix of the pool); small -> more collisions
     pub keys: u8,
     /// number of transaction slots used by Begin/Write/Finish/Abort (1..=3)
@@ -54,6 +56,7 @@ impl Default for Bias {
             ns: vec![(3, 1), (3, 2), (3, 3), (1, 4), (1, 5), (1, 7), (1, 10), (1, 64), (2, 10_000)],
             key_types: crate::common::KEY_TYPES.to_vec(),
             big: 3,
+            huge: 0,
             keys: 7,
             slots: 3,
         }
@@ -61,6 +64,10 @@ impl Default for Bias {
 }
 
 pub fn content(big: u32) -> BoxedStrategy<C> {
+    content2(big, 0)
+}
+
+pub fn content2(big: u32, huge: u32) -> BoxedStrategy<C> {
     let mut alts: Vec<(u32, BoxedStrategy<C>)> = vec![
         (10, (0u8..3).prop_map(C::P).boxed()),
         (3, vec(any::<u8>(), 0..48).prop_map(C::R).boxed()),
@@ -68,6 +75,9 @@ pub fn content(big: u32) -> BoxedStrategy<C> {
     ];
     if big > 0 {
         alts.push((big, (3u8..9).prop_map(C::P).boxed()));
+    }
+    if huge > 0 {
+        alts.push((huge, Just(C::P(9)).boxed()));
     }
     Union::new_weighted(alts).boxed()
 }
@@ -88,10 +98,10 @@ pub fn step(b: &Bias) -> BoxedStrategy<Step> {
             alts.push((w, s));
         }
     };
-    add(b.put, (0..keys, content(b.big), cuts()).prop_map(|(k, c, cuts)| Step::Put { k, c, cuts }).boxed());
+    add(b.put, (0..keys, content2(b.big, b.huge), cuts()).prop_map(|(k, c, cuts)| Step::Put { k, c, cuts }).boxed());
     let slots = b.slots.clamp(1, 3);
     add(b.begin, (0u8..slots, 0..keys).prop_map(|(s, k)| Step::Begin { s, k }).boxed());
-    add(b.write, (0u8..slots, content(b.big)).prop_map(|(s, c)| Step::Write { s, c }).boxed());
+    add(b.write, (0u8..slots, content2(b.big, b.huge)).prop_map(|(s, c)| Step::Write { s, c }).boxed());
     add(b.finish, (0u8..slots).prop_map(|s| Step::Finish { s }).boxed());
     add(b.abort, (0u8..slots).prop_map(|s| Step::Abort { s }).boxed());
     add(b.remove, (0..keys).prop_map(|k| Step::Remove { k }).boxed());
@@ -112,6 +122,7 @@ pub fn range_val() -> BoxedStrategy<u64> {
         4 => 0u64..10,
         3 => 4090u64..8200,
         2 => 0u64..80_000,
+        1 => 0u64..310_000,
         1 => Just(u64::MAX),
         1 => Just(1u64 << 32),
         1 => Just(1u64 << 63),
